@@ -42,6 +42,9 @@ CONSTANTS Deviations,
 (* "PutBackNoProgress"     an unexpected line is put back instead of rejected (loop consumes nothing)*)
 (* "MissingChargeIsZero"   an atom record that lost its charge column is read as neutral although the    *)
 (*                         text announces charges and the class carries them                            *)
+(* "SlotById"              the atom records are stored at the slot named by their serial number instead  *)
+(*                         of by position: a damaged serial number leaves one slot blank                *)
+(* "EndpointWraps"         a bond endpoint 0 is taken for the last atom (negative indexing)             *)
 (* "LastTokenCut"          damage level: cutting the last numeric token of the text leaves a         *)
 (*                         well-formed record with another value (no reader can notice)              *)
 (* "OptionalBlockCut"      damage level: a truncation right before an optional UNITY_xxx block of a    *)
@@ -68,8 +71,9 @@ Cmt          == [k |-> "cmt", nt |-> 1]
 Tag(t)       == [k |-> "tag", t |-> t, nt |-> 1]
 Text(s, n)   == [k |-> "text", s |-> s, nt |-> n]
 Ints(c)      == [k |-> "ints", c |-> c, nt |-> Len(c)]
-MAtom(id)    == [k |-> "atom", id |-> id, ok |-> TRUE, hq |-> TRUE, nt |-> 9]
-MBond(a, b, id) == [k |-> "bond", a1 |-> a, a2 |-> b, id |-> id, ok |-> TRUE, nt |-> 4]
+(* n: the serial number column of a record (atom id / bond id): "for reference only", not content *)
+MAtom(id)    == [k |-> "atom", id |-> id, n |-> id % 10, ok |-> TRUE, hq |-> TRUE, nt |-> 9]
+MBond(a, b, id) == [k |-> "bond", a1 |-> a, a2 |-> b, id |-> id, n |-> id % 10, ok |-> TRUE, nt |-> 4]
 XAtom(id)    == [k |-> "atom", id |-> id, ok |-> TRUE, hq |-> FALSE, nt |-> 4]
 Junk         == Text("?!", 1)
 KnownTags    == {"MOLECULE", "ATOM", "BOND", "UNITY_ATOM_ATTR", "UNITY_BOND_ATTR"}
@@ -79,7 +83,8 @@ HasCounts(l) == l.k = "ints" /\ Len(l.c) >= 1
 IsCount(l)   == l.k = "ints" /\ Len(l.c) = 1 /\ l.c[1] >= 0
 AtomOK(l, needq) == l.k = "atom" /\ l.ok /\ ((needq /\ UsesQ /\ ~Dev("MissingChargeIsZero")) => l.hq)
 (* what of a record is content for the consuming class *)
-NormQ(l, uq) == IF l.k = "atom" THEN [l EXCEPT !.hq = (IF uq THEN @ ELSE TRUE), !.nt = 0] ELSE l
+NormQ(l, uq) == IF l.k = "atom" THEN [l EXCEPT !.hq = (IF uq THEN @ ELSE TRUE), !.nt = 0, !.n = 0]
+                ELSE IF l.k = "bond" THEN [l EXCEPT !.n = 0] ELSE l
 Norm(l) == NormQ(l, UsesQ)
 BondOK(l)    == \/ l.k = "bond" /\ l.ok
                 \/ l.k = "ints" /\ Len(l.c) \in 4..6 /\ l.c[4] \in 1..6      \* "7 3 4 1"
@@ -135,6 +140,12 @@ Variants(f, l, islast, iscnt) ==
           ELSE {})
   \* an atom record that lost its trailing optional tokens (token dropped, or the line cut after the atom type)
   \cup (IF l.k = "atom" /\ f = "mol2" /\ l.hq THEN {[v |-> "noq", line |-> [l EXCEPT !.hq = FALSE, !.nt = 6]]} ELSE {})
+  \* a token replaced by ANOTHER VALID value of its column: a serial number that another record already has (or
+  \* off by one), a bond endpoint off by one so that it leaves 1..n_atoms.  (An endpoint that stays inside 1..n_atoms,
+  \* like any other value-carrying token, gives another well-formed text: no reader can notice.)
+  \cup (IF l.k \in {"atom", "bond"} /\ f = "mol2" THEN {[v |-> "n+1", line |-> [l EXCEPT !.n = @ + 1]]}
+                                                  \cup (IF l.n > 1 THEN {[v |-> "n-1", line |-> [l EXCEPT !.n = @ - 1]]} ELSE {}) ELSE {})
+  \cup (IF l.k = "bond" THEN {[v |-> "a1-1", line |-> [l EXCEPT !.a1 = @ - 1]], [v |-> "a2+1", line |-> [l EXCEPT !.a2 = @ + 1]]} ELSE {})
   \cup (IF islast /\ l.k = "atom" /\ Dev("LastTokenCut")
           THEN {[v |-> "cutnum", line |-> [l EXCEPT !.id = @ + 100]]} ELSE {})
 NoLine == Blank
@@ -173,7 +184,8 @@ Content(as, bs, u, nm) == <<as, bs, u, nm>>   \* u: number of attribute records 
 MkRef(f, st, shs, c) == [m \in 1..Len(shs) |->
                    LET raw == MolAtoms(f, m, shs[m])
                        as == [j \in 1..Len(raw) |-> IF f = "mol2" THEN NormQ(raw[j], c # "Structure") ELSE raw[j]]
-                       bs == IF f = "mol2" THEN MolBonds(m, shs[m]) ELSE <<>>
+                       rb == IF f = "mol2" THEN MolBonds(m, shs[m]) ELSE <<>>
+                       bs == [j \in 1..Len(rb) |-> NormQ(rb[j], TRUE)]
                    IN [na |-> shs[m].na, nc |-> shs[m].na, nb |-> Len(bs), atoms |-> as, bonds |-> bs, dig |-> Content(as, bs, IF f = "mol2" /\ st = "unity" /\ shs[m].na >= 1 THEN 1 ELSE 0, IF f = "mol2" THEN MolName(m) ELSE "")]]
 
 (* ------------------------------ the reader machines --------------------------- *)
@@ -194,11 +206,19 @@ Tick(a) == steps' = steps + 1 /\ last' = [act |-> a] /\ UNCHANGED ivars
 Fail(a) == pc' = "error" /\ Tick(a) /\ UNCHANGED <<pos, pb, cnt, tmp, hdr, atoms, gotA, bonds, gotB, ua, skip, out>>
 
 (* block -> molecule (Structure.yield_from_mol2) *)
-PadRow == [k |-> "atom", id |-> 0, ok |-> TRUE, hq |-> TRUE, nt |-> 9]
+PadRow == [k |-> "atom", id |-> 0, n |-> 0, ok |-> TRUE, hq |-> TRUE, nt |-> 0]
 MkMol(h, as, gA, bs, gB, u) ==
-  LET A == IF gA THEN [j \in 1..Len(as) |-> Norm(TheLines[as[j]])] ELSE <<>>
-      B == IF gB THEN [j \in 1..Len(bs) |-> TheLines[bs[j]]] ELSE <<>>
-      inside == \A i \in 1..Len(B) : EndsOf(B[i])[1] \in 1..h.na /\ EndsOf(B[i])[2] \in 1..h.na
+  LET R == IF gA THEN [j \in 1..Len(as) |-> TheLines[as[j]]] ELSE <<>>
+      bySlot == Dev("SlotById") /\ Len(R) = h.na
+      slotsOK == \A i \in 1..Len(R) : R[i].n \in 1..h.na
+      A == IF bySlot /\ slotsOK
+             THEN [j \in 1..h.na |-> LET S == {i \in 1..Len(R) : R[i].n = j}
+                                     IN IF S = {} THEN PadRow ELSE Norm(R[CHOOSE i \in S : \A k \in S : k <= i])]
+             ELSE [j \in 1..Len(R) |-> Norm(R[j])]
+      B == IF gB THEN [j \in 1..Len(bs) |-> Norm(TheLines[bs[j]])] ELSE <<>>
+      lo == IF Dev("EndpointWraps") THEN 0 ELSE 1
+      inside == /\ \A i \in 1..Len(B) : EndsOf(B[i])[1] \in lo..h.na /\ EndsOf(B[i])[2] \in lo..h.na
+                /\ (bySlot => slotsOK)
   IN IF CountCheck
        THEN [ok |-> h # NoHdr /\ Len(A) = h.na /\ Len(B) = (IF h.nb < 0 THEN 0 ELSE h.nb) /\ inside,
              m  |-> [na |-> h.na, nc |-> Len(A), nb |-> Len(B), chg |-> h.chg, name |-> h.name, atoms |-> A, bonds |-> B, dig |-> Content(A, B, u, h.name)]]
